@@ -9,7 +9,7 @@ use tokio::{
     fs::{File, OpenOptions},
     io::AsyncWriteExt,
 };
-use tracing::trace;
+use tracing::{trace, warn};
 
 /// A dedicated struct for writing to the index file.
 #[derive(Debug)]
@@ -40,7 +40,7 @@ impl SegmentIndexWriter {
             format!("Failed to fsync index file after creation: {file_path}. {error}",)
         });
 
-        let actual_index_size = file
+        let mut actual_index_size = file
             .metadata()
             .await
             .with_error_context(|error| {
@@ -48,6 +48,24 @@ impl SegmentIndexWriter {
             })
             .map_err(|_| IggyError::CannotReadFileMetadata)?
             .len();
+
+        // The readers decode the file from its start in entries of INDEX_SIZE bytes. A trailing partial entry is a leftover
+        // of an append interrupted by a crash, it has to be discarded, otherwise all the entries appended from now on
+        // would be misaligned.
+        let torn_entry_size = actual_index_size % INDEX_SIZE;
+        if torn_entry_size > 0 {
+            actual_index_size -= torn_entry_size;
+            warn!(
+                "Index file {file_path} ends with a partial entry of {torn_entry_size} bytes (interrupted append), truncating it to {actual_index_size} bytes."
+            );
+            file.set_len(actual_index_size)
+                .await
+                .with_error_context(|error| {
+                    format!("Failed to truncate index file: {file_path}. {error}")
+                })
+                .map_err(|_| IggyError::CannotWriteToFile)?;
+            let _ = file.sync_all().await;
+        }
 
         index_size_bytes.store(actual_index_size, Ordering::Release);
 
